@@ -6,9 +6,11 @@ import (
 	"os"
 	"path/filepath"
 	"regexp"
+	"runtime"
 	"sort"
 	"strconv"
 	"strings"
+	"syscall"
 
 	"github.com/elastic/go-seccomp-bpf/arch"
 	"github.com/elastic/go-seccomp-bpf/cmd/seccomp-profiler/disasm"
@@ -29,7 +31,8 @@ var (
 // (num xname)* for every record that has a table), then one result line per input line:
 //
 //	C id key mode xcontent   -> ExtractSyscalls(arch.<key>, path); mode file: path holds content;
-//	                            dir: path is a directory (the read fails); noent: path does not exist
+//	                            dir: path is a directory (the read fails); noent: path does not exist;
+//	                            fifo: path is a named pipe through which content is written in pieces
 //	                            C id OK n (num xname xcaller xfunction xlocation xassembly)* | C id ERR | C id PANIC xmsg
 //	R1|R2 xline              -> regexp.FindStringSubmatch:   R1 none | R1 xwhole xcapture
 //	PI xs                    -> strconv.ParseInt(s, 0, 64):  PI err | PI n
@@ -46,22 +49,37 @@ func cmdDisasm() {
 	for _, k := range keys {
 		fmt.Fprintf(w, "A %s %d %d\n", k, uint32(allArches[k].ID), uint32(allArches[k].SeccompMask))
 	}
-	for _, k := range keys {
-		ai := allArches[k]
-		if len(ai.SyscallNumbers) == 0 {
-			continue
+	printTables := func(tag string) {
+		for _, k := range keys {
+			ai := allArches[k]
+			if len(ai.SyscallNumbers) == 0 {
+				continue
+			}
+			var nums []int
+			for n := range ai.SyscallNumbers {
+				nums = append(nums, n)
+			}
+			sort.Ints(nums)
+			fmt.Fprintf(w, "%s %s %d %d %d", tag, k, uint32(ai.ID), uint32(ai.SeccompMask), len(nums))
+			for _, n := range nums {
+				fmt.Fprintf(w, " %d %s", n, hexs(ai.SyscallNumbers[n]))
+			}
+			fmt.Fprintln(w)
+			var names []string
+			for nm := range ai.SyscallNames {
+				names = append(names, nm)
+			}
+			sort.Strings(names)
+			fmt.Fprintf(w, "%sN %s %d", tag, k, len(names))
+			for _, nm := range names {
+				fmt.Fprintf(w, " %s %d", hexs(nm), ai.SyscallNames[nm])
+			}
+			fmt.Fprintln(w)
 		}
-		var nums []int
-		for n := range ai.SyscallNumbers {
-			nums = append(nums, n)
-		}
-		sort.Ints(nums)
-		fmt.Fprintf(w, "T %s %d %d %d", k, uint32(ai.ID), uint32(ai.SeccompMask), len(nums))
-		for _, n := range nums {
-			fmt.Fprintf(w, " %d %s", n, hexs(ai.SyscallNumbers[n]))
-		}
-		fmt.Fprintln(w)
 	}
+	printTables("T")
+	// the tables are data of package arch: they read the same after the parser has worked (lines "U", at the end)
+	defer printTables("U")
 	base := "/dev/shm"
 	if st, err := os.Stat(base); err != nil || !st.IsDir() {
 		base = os.TempDir()
@@ -95,6 +113,54 @@ func cmdDisasm() {
 				if err := os.WriteFile(path, []byte(unhexs(f[4])), 0o644); err != nil {
 					panic(err)
 				}
+			case "fifo":
+				// the same text behind a named pipe (what a shell's process substitution or /dev/stdin hands over):
+				// a file without a size that delivers its bytes in pieces
+				p = filepath.Join(dir, "objdump.fifo")
+				os.Remove(p)
+				if err := syscall.Mkfifo(p, 0o644); err != nil {
+					panic(err)
+				}
+				content := []byte(unhexs(f[4]))
+				done := make(chan struct{})
+				go func(p string) {
+					defer close(done)
+					wf, err := os.OpenFile(p, os.O_WRONLY, 0)
+					if err != nil {
+						return
+					}
+					defer wf.Close()
+					for len(content) > 0 {
+						n := 1000
+						if n > len(content) {
+							n = len(content)
+						}
+						if _, err := wf.Write(content[:n]); err != nil {
+							return
+						}
+						content = content[n:]
+					}
+				}(p)
+				fmt.Fprintln(w, extractCase(f[1], ai, p, devnull, realStderr))
+				// a reader that gave up early leaves the writer blocked: open and drain
+				if rf, err := os.OpenFile(p, os.O_RDONLY|syscall.O_NONBLOCK, 0); err == nil {
+					buf := make([]byte, 1<<16)
+					for {
+						select {
+						case <-done:
+						default:
+							if _, err := rf.Read(buf); err == nil {
+								continue
+							}
+							runtime.Gosched()
+							continue
+						}
+						break
+					}
+					rf.Close()
+				}
+				<-done
+				return
 			case "dir":
 				p = subdir
 			case "noent":
